@@ -248,12 +248,63 @@ def _witness_callers_prove_index(prog, w):
     return True
 
 
+def _witness_guard_implies_no_panic(prog, w):
+    """`worker` (a partial function over a recursive enum that panics on the shapes it does not handle) is
+    only called where `guard` answered true.  Both are interpreted (TagFlow) on every tree of the enum up to
+    the stated depth, built from the listed variants with the listed recursive field; wherever the guard may
+    answer true the worker must return on some path and meet no panic."""
+    from .. import tagflow as tf
+    guard, worker = prog.fn_opt(w["guard"]), prog.fn_opt(w["worker"])
+    if guard is None or worker is None:
+        raise CheckError("witness anchor %s / %s not found" % (w["guard"], w["worker"]))
+    adt = w["adt"]
+    if prog.adt(adt) is None:
+        raise CheckError("witness: enum %s not found" % adt)
+    eng = tf.Engine(prog)
+    eng.trunc_depth = 12
+    names = {v["name"] if isinstance(v, dict) else v for v in prog.variants(adt)}
+    leaves = [v for v in w["leaves"] if v in names]
+    rec = {k: v for k, v in w["recursive"].items() if k in names}
+    if len(leaves) != len(w["leaves"]) or len(rec) != len(w["recursive"]):
+        raise CheckError("witness %s: the listed variants no longer exist" % w["worker"])
+    trees = [(v, eng.make(adt, v, {})) for v in leaves]
+    level = list(trees)
+    for _d in range(int(w.get("depth", 3)) - 1):
+        nxt = []
+        for rv, fld in rec.items():
+            for nm, t in level:
+                nxt.append(("%s(%s)" % (rv, nm), eng.make(adt, rv, {int(fld): t})))
+        trees += nxt
+        level = nxt
+    n_true = 0
+    for nm, t in trees:
+        g = eng.summary(guard, (t,))
+        may_true = any(r == ("k", 1) or (r and r[0] == "top") for r in g) or not g
+        if not may_true:
+            continue
+        n_true += 1
+        res = eng.summary(worker, (t,))
+        # the panics the guard is there to exclude: those of the worker and of the functions of its file
+        # (a field left abstract in the tree can make any callee of another file diverge - its own business)
+        div = {d for d in eng.divergences(worker, (t,))
+               if prog.fns.get(d[0]) is not None and prog.fns[d[0]].file == worker.file}
+        if div:
+            w["_why"] = "%s answers true for %s, on which %s panics" % (guard.name, nm, worker.name)
+            return False
+    if n_true < 2:
+        raise CheckError("witness %s: the guard accepted %d of %d trees (the interpretation is blind)" % (w["worker"], n_true, len(trees)))
+    w["_n"] = len(trees)
+    return True
+
+
 def witness_holds(prog, w):
     """re-check one machine-checkable part of an audited invariant (tables/panic_witnesses.json)."""
     if w["kind"] == "callers_prove_index":
         return _witness_callers_prove_index(prog, w)
     if w["kind"] == "zero_test_on_divisor":
         return _witness_zero_test_on_divisor(prog, w)
+    if w["kind"] == "guard_implies_no_panic":
+        return _witness_guard_implies_no_panic(prog, w)
     if w["kind"] != "parser_mandatory":
         raise CheckError("unknown witness kind %s" % w["kind"])
     root = prog.fn_opt(w["fn"])
